@@ -64,12 +64,79 @@ def run(F, R, tier):
     R.rule("U", "every function of the MSSM a_mu code is dimensionally consistent and has the declared result "
                 "dimension (dimensionless; log_scale: GeV)", 55)
     check_units(F, R, "U", FILES, RESULT_DIM, LOOPFN)
+    _pole_slots(F, R)
     # uncertainty floor (shared with C18-U2): the constant floor is what the 2-loop uncertainty decays to
     from .domains import lower_bound
     R.rule("F", "two-loop uncertainty = constant floor 2.3e-10 + terms proportional to |2L(a)| contributions", 1)
     f = [g for g in F.fns("gm2calc::calculate_uncertainty_amu_2loop") if "MSSMNoFV" in (g["params"][0]["t"] or "")][0]
     E = Evaluator(F, inline=lambda n, g: not re.match(r"^gm2calc::amu2La", n))
     v, fr = E.function_value(f)
-    s = show(v)
-    ok = re.match(r"^\(23/100000000000 \+ \(3/10 \* \(abs\(amu2LaCha\(model\)\) \+ abs\(amu2LaSferm\(model\)\)\)\)\)$", s) is not None
-    R.check("F", ok, "uncertainty_2loop = " + s[:90], F.loc(f), "floor/shape of the two-loop uncertainty changed", key="F|floor")
+    from .poly import to_rat, NotPolynomial
+    why = []
+    lbv = lower_bound(v, why=why)
+    try:
+        r = to_rat(v)
+        const = r.n.t.get((), Fraction(0)) / r.d.const_value() if r.d.is_const() else None
+        # every other monomial contains |2L(a)| contributions only: atoms abs(amu2La...(model))
+        rest_ok = r.d.is_const() and all(
+            m == () or all(a[0] == "call" and a[1] == "abs" and re.match(r"^amu2La\w+\(", show(a[2][0])) for a, e in m)
+            for m in r.n.t)
+        pos_ok = all(c > 0 for c in r.n.t.values())
+    except NotPolynomial:
+        const, rest_ok, pos_ok = None, False, False
+    ok = const is not None and const > 0 and lbv == const and rest_ok and pos_ok
+    R.check("F", ok, "uncertainty_2loop = %s: lower bound %s = constant term, the rest vanishes with the 2L(a) terms" % (show(v)[:70], lbv),
+            F.loc(f), "the two-loop uncertainty is no longer `positive floor + positive multiples of |2L(a)| contributions` "
+            "(constant term %s, provable lower bound %s)" % (const, lbv), key="F|floor")
+
+
+
+def _pole_slots(F, R):
+    """W: the a_mu formulas read only those slots of the pole-mass structure `physical` that the model
+    refreshes unconditionally (SM inputs in the constructor, MAh/Mhh in calculate_masses).  The SUSY slots are
+    filled by copy_susy_masses_to_pole only while they are still zero: on a model that is set to a second (e.g.
+    rescaled) parameter point they keep the first point's masses, so a formula reading them cannot scale."""
+    from .facts import walk
+    from .structure import Struct
+    from .render import render
+    R.rule("W", "pole-mass slots read by the a_mu code are refreshed unconditionally by the model (never the fill-only-if-"
+                "empty SUSY slots of copy_susy_masses_to_pole)", 5)
+    stale, fresh = set(), set()
+    for k, f in F.functions.items():
+        if f["file"] != "src/MSSMNoFV/MSSMNoFV_onshell.cpp":
+            continue
+        S = None
+        for n in walk(f["body"]):
+            if n.get("k") in ("BinaryOperator", "CXXOperatorCallExpr") and n.get("op") == "=":
+                lhs = render(n["c"][0] if n["k"] == "BinaryOperator" else n["c"][1], f, resolve_locals=False)
+                if "get_physical()." not in lhs:
+                    continue
+                S = S or Struct(f)
+                gs = [render(g[0], f, resolve_locals=False) for g in S.guards(n) if g[0] != "switch"]
+                fld = re.split(r"[^A-Za-z0-9_]", lhs.split("get_physical().")[-1])[0]
+                if any("is_zero" in g and "get_physical()" in g for g in gs):
+                    stale.add(fld)
+                else:
+                    fresh.add(fld)
+    fresh -= stale
+    if len(stale) < 10 or len(fresh) < 7:
+        raise AnalysisBroken("pole-mass slot classification found too few slots (stale %d, fresh %d)" % (len(stale), len(fresh)))
+    E = Evaluator(F, inline=lambda n, g: not LOOPFN.match(n), max_depth=14)
+    reads = {}
+    for k, f in sorted(F.functions.items(), key=lambda x: (x[1]["file"], x[1]["line"])):
+        if f["file"] not in FILES or (f.get("method") or {}).get("lambda"):
+            continue
+        v, fr = E.function_value(f)
+        for x in subterms(v):
+            if isinstance(x, tuple) and len(x) == 3 and x[0] == "field" and isinstance(x[1], tuple) and x[1][0] == "field" \
+                    and x[1][2] == "physical":
+                reads.setdefault(x[2], []).append(f)
+    for fld, fs in sorted(reads.items()):
+        f = fs[0]
+        R.check("W", fld in fresh, "physical.%s (read by %d functions, e.g. %s) is refreshed unconditionally"
+                % (fld, len(fs), f["name"].split("::")[-1]), F.loc(f),
+                "%s reads the pole-mass slot physical.%s, which %s: on a re-used model it keeps the value of an earlier "
+                "parameter point and does not scale with the SUSY parameters"
+                % (f["name"].split("::")[-1], fld, "copy_susy_masses_to_pole fills only while it is zero" if fld in stale
+                   else "no function of MSSMNoFV_onshell.cpp assigns"), key="W|" + fld)
+    R.analysed["pole_slots"] = {"fresh": sorted(fresh), "fill_if_empty": sorted(stale)}
